@@ -342,11 +342,11 @@ func (c *Client) Subscribe(topic string, fn EventHandler, options wamp.Dict) err
 	}
 	id := c.sess.IDGen.Next()
 	c.expectReply(id)
-	c.sess.Send() <- &wamp.Subscribe{
+	c.send(&wamp.Subscribe{
 		Request: id,
 		Options: options,
 		Topic:   wamp.URI(topic),
-	}
+	})
 
 	// Wait to receive SUBSCRIBED message.
 	msg, err := c.waitForReply(id)
@@ -413,10 +413,10 @@ func (c *Client) Unsubscribe(topic string) error {
 
 	id := c.sess.IDGen.Next()
 	c.expectReply(id)
-	c.sess.Send() <- &wamp.Unsubscribe{
+	c.send(&wamp.Unsubscribe{
 		Request:      id,
 		Subscription: subID,
-	}
+	})
 
 	// Wait to receive UNSUBSCRIBED message.
 	msg, err := c.waitForReply(id)
@@ -537,7 +537,9 @@ func (c *Client) Publish(topic string, options wamp.Dict, args wamp.List, kwargs
 		message.ArgumentsKw = kwargs
 	}
 
-	c.sess.Send() <- message
+	if !c.send(message) {
+		return ErrNotConn
+	}
 
 	if !pubAck {
 		return nil
@@ -601,11 +603,11 @@ func (c *Client) Register(procedure string, fn InvocationHandler, options wamp.D
 	if options == nil {
 		options = wamp.Dict{}
 	}
-	c.sess.Send() <- &wamp.Register{
+	c.send(&wamp.Register{
 		Request:   id,
 		Options:   options,
 		Procedure: wamp.URI(procedure),
-	}
+	})
 
 	// Wait to receive REGISTERED message.
 	msg, err := c.waitForReply(id)
@@ -664,10 +666,10 @@ func (c *Client) Unregister(procedure string) error {
 
 	id := c.sess.IDGen.Next()
 	c.expectReply(id)
-	c.sess.Send() <- &wamp.Unregister{
+	c.send(&wamp.Unregister{
 		Request:      id,
 		Registration: procID,
-	}
+	})
 
 	// Wait to receive UNREGISTERED message.
 	msg, err := c.waitForReply(id)
@@ -798,7 +800,7 @@ func (c *Client) Call(ctx context.Context, procedure string, options wamp.Dict, 
 		return nil, err
 	}
 
-	c.sess.Send() <- message
+	c.send(message)
 
 	// Wait to receive RESULT message.
 	msg, err := c.waitForReplyWithCancel(ctx, id, procedure, progChan)
@@ -896,7 +898,7 @@ func (c *Client) CallProgressive(ctx context.Context, procedure string, sendProg
 		return nil, err
 	}
 
-	c.sess.Send() <- message
+	c.send(message)
 
 	callInProgress, _ := options[wamp.OptProgress].(bool)
 
@@ -908,10 +910,10 @@ func (c *Client) CallProgressive(ctx context.Context, procedure string, sendProg
 				cliOptions, args, kwargs, err := sendProg(ctx)
 
 				if err != nil {
-					c.sess.Send() <- &wamp.Cancel{
+					c.send(&wamp.Cancel{
 						Request: id,
 						Options: wamp.SetOption(nil, wamp.OptMode, wamp.CancelModeKillNoWait),
-					}
+					})
 					return
 				}
 
@@ -935,14 +937,14 @@ func (c *Client) CallProgressive(ctx context.Context, procedure string, sendProg
 				}
 
 				if err := c.prepareCallPayloadMessage(message, options, args, kwargs); err != nil {
-					c.sess.Send() <- &wamp.Cancel{
+					c.send(&wamp.Cancel{
 						Request: id,
 						Options: wamp.SetOption(nil, wamp.OptMode, wamp.CancelModeKillNoWait),
-					}
+					})
 					return
 				}
 
-				c.sess.Send() <- message
+				c.send(message)
 			}
 		}()
 	}
@@ -1318,6 +1320,20 @@ type replyWait struct {
 	gone  chan struct{}
 }
 
+// send hands a message to the transport, unless the client has stopped. Once
+// the receive loop has ended (GOODBYE, ABORT or lost transport) nobody may be
+// taking messages from the send channel any more, and a plain channel send
+// would block the calling goroutine forever. Returns false if not sent; a
+// caller that goes on to wait for a reply gets ErrNotConn from there.
+func (c *Client) send(msg wamp.Message) bool {
+	select {
+	case c.sess.Send() <- msg:
+		return true
+	case <-c.Done():
+		return false
+	}
+}
+
 func (c *Client) expectReply(id wamp.ID) {
 	wait := &replyWait{
 		reply: make(chan wamp.Message),
@@ -1416,10 +1432,10 @@ CollectResults:
 			c.log.Printf("Call to %q canceled by caller (mode=%s): %s",
 				procedure, c.cancelMode, err)
 		}
-		c.sess.Send() <- &wamp.Cancel{
+		c.send(&wamp.Cancel{
 			Request: id,
 			Options: wamp.SetOption(nil, wamp.OptMode, c.cancelMode),
-		}
+		})
 		// Wait for the ERROR from the dealer.
 		timer := time.NewTimer(c.responseTimeout)
 	waitCancel:
